@@ -98,6 +98,9 @@ theorem printLoop_ascii (cl : Nat) (fuel : Nat) (rd : Rd) (acc : List Nat) (ha :
       simp only [List.isEmpty_cons, Bool.false_eq_true, if_false, hfill, hb]
       have hb0 := ha b0 (by simp [bytesOf, hb])
       simp only [decodeRune_ascii b0 brest hb0.2]
+      have hne0 : ¬ (b0 = runeError) := by
+        intro h; have h2 := hb0.2; rw [h] at h2; simp [runeError] at h2
+      simp only [hne0, decide_false, Bool.and_false, Bool.false_and, Bool.false_eq_true, if_false]
       split
       · exact ⟨[], by simp⟩
       · have hcons : bytesOf (rd.consume 1) = brest ++ rd.chunks.flatten := by simp [bytesOf, Rd.consume, hb]
@@ -114,7 +117,7 @@ theorem remaining_eq (rd : Rd) : rd.remaining = (bytesOf rd).length := by
 
 theorem pstep_eof_quiet (s : PState) (he : s.exit = none) : pstep s .eof = ⟨s, [], true⟩ := by
   have hrow : handAnywhere.row .eof = ([.runExitIfSet], .stop) := by decide
-  have hpre : handAnywhere.pre.contains Act.deferClearIgnoreST = false := by decide
+  have hpre : ([.runExitIfSet] : List Act).contains Act.deferClearIgnoreST = false := by decide
   show step handTable s .eof = _
   unfold step
   simp only [handTable, runFn, hrow, hpre, runActs, applyAct, he, usesRune]
